@@ -66,6 +66,10 @@ const genesisUnix = 1700000000
 // genesisInitialHeight: the height the next NewChain starts at (genesis.json initial_height); reset to 1 after use
 var genesisInitialHeight int64 = 1
 
+// genesisPoorUsers: the last k users of the next NewChain hold a few thousand base units only (they can pay
+// small prices and fail on larger ones); reset to 0 after use
+var genesisPoorUsers int
+
 // traceW: when VERIF_TRACE names a file, every store operation of every application object is traced into it
 var traceW *os.File
 
@@ -104,7 +108,11 @@ func NewChain(n int, denoms []string, mut GenesisMutator) *Chain {
 		privs = append(privs, pk)
 		coins := sdk.NewCoins()
 		for _, d := range denoms {
-			coins = coins.Add(sdk.NewInt64Coin(d, 1e15))
+			if i >= n-genesisPoorUsers {
+				coins = coins.Add(sdk.NewInt64Coin(d, 3000))
+			} else {
+				coins = coins.Add(sdk.NewInt64Coin(d, 1e15))
+			}
 		}
 		balances = append(balances, banktypes.Balance{Address: u.String(), Coins: coins})
 	}
@@ -141,6 +149,7 @@ func NewChain(n int, denoms []string, mut GenesisMutator) *Chain {
 	a.InitChain(abci.RequestInitChain{ConsensusParams: app.DefaultConsensusParams, AppStateBytes: stateBytes, Time: c.T, ChainId: "verif-1", InitialHeight: genesisInitialHeight})
 	a.Commit()
 	genesisInitialHeight = 1
+	genesisPoorUsers = 0
 	return c
 }
 
